@@ -2,6 +2,7 @@ import PhQVerif.Props.C01
 open PhQVerif Generated
 #print axioms PhQVerif.Props.C01.kernels_match_their_symbols
 #print axioms PhQVerif.Props.C01.scale_constant_real_bound
+#print axioms PhQVerif.Props.C01.conversion_step_accuracy
 #eval s!"COUNT C01.units {(unitTypes.map (·.values.length)).sum}"
 #eval s!"COUNT C01.kernel_checks {3 * 2 * (unitTypes.map (·.values.length)).sum}"
 #eval s!"COUNT C01.atoms_in_oracle {atomTable.length}"
